@@ -18,6 +18,8 @@
 package main
 
 import (
+	"bytes"
+	"compress/gzip"
 	"context"
 	"fmt"
 	"math/rand"
@@ -41,13 +43,24 @@ var epoch = time.Date(2012, 9, 12, 0, 0, 0, 0, time.UTC)
 var zones = []*time.Location{time.UTC, time.FixedZone("east", 2*3600), time.FixedZone("west", -8*3600), time.FixedZone("half", 5*3600+1800)}
 var zoneTick int
 
+// lastPanic: the library panicked inside the last withZone call ("" = it did not)
+var lastPanic string
+
 func withZone(f func()) string {
 	z := zones[zoneTick%len(zones)]
 	zoneTick++
 	old := time.Local
 	time.Local = z
+	lastPanic = ""
 	defer func() { time.Local = old }()
-	f()
+	func() {
+		defer func() {
+			if r := recover(); r != nil {
+				lastPanic = fmt.Sprint(r)
+			}
+		}()
+		f()
+	}()
 	return z.String()
 }
 
@@ -63,6 +76,10 @@ type world struct {
 	budget int
 	trace  []int64
 	paths  []string
+	// gzip: behave like a server/CDN that compresses text responses for clients that accept it
+	gzip bool
+	// cut: sequence number -> number of body bytes after which the transfer breaks off
+	cut map[uint64]int
 }
 
 var pathRe = regexp.MustCompile(`^/replication/([a-z]+)/([0-9]+)/([0-9]{3})/([0-9]{3})(\.[a-z.]+)$`)
@@ -132,13 +149,36 @@ func (w *world) ServeHTTP(rw http.ResponseWriter, r *http.Request) {
 		rw.WriteHeader(404)
 		return
 	}
+	if k, ok := w.cut[uint64(code)]; ok && code > 0 && k < len(body) {
+		// the transfer breaks off: fewer bytes than announced, then the connection is closed
+		rw.Header().Set("Content-Length", strconv.Itoa(len(body)))
+		rw.WriteHeader(200)
+		rw.Write(body[:k])
+		return
+	}
+	if w.gzip && strings.Contains(r.Header.Get("Accept-Encoding"), "gzip") {
+		var zb bytes.Buffer
+		zw := gzip.NewWriter(&zb)
+		zw.Write(body)
+		zw.Close()
+		rw.Header().Set("Content-Encoding", "gzip")
+		rw.Header().Set("Vary", "Accept-Encoding")
+		rw.WriteHeader(200)
+		rw.Write(zb.Bytes())
+		return
+	}
 	rw.WriteHeader(200)
 	rw.Write(body)
 }
 
+var gzipTick int
+
 func (w *world) reset(kind int, budget int) {
 	w.mu.Lock()
 	w.kind, w.files, w.cur, w.budget, w.trace, w.paths = kind, map[uint64][]byte{}, nil, budget, nil, nil
+	w.cut = map[uint64]int{}
+	gzipTick++
+	w.gzip = gzipTick%2 == 0 // every other directory / file is served by a compressing server
 	w.mu.Unlock()
 }
 
@@ -174,6 +214,12 @@ func intervalBody(seq uint64, ts int64, variant int) []byte {
 		// the standard order with a long active list at the end
 		return []byte(fmt.Sprintf("#%s\ntxnMaxQueried=836439235\nsequenceNumber=%d\ntimestamp=%s\ntxnReadyList=\ntxnMax=836439235\ntxnActiveList=%s\n",
 			t.Format("Mon Jan 02 15:04:05 UTC 2006"), seq, stamp, longList(300, variant)))
+	case 6:
+		if seq%5 == 0 {
+			// ~8000 open transactions: one line of more than 64 KiB before the time stamp
+			return []byte(fmt.Sprintf("#%s\nsequenceNumber=%d\ntxnActiveList=%s\ntimestamp=%s\ntxnMax=836439235\n",
+				t.Format("Mon Jan 02 15:04:05 UTC 2006"), seq, longList(7000, variant), stamp))
+		}
 	case 5:
 		return []byte(fmt.Sprintf("#%s\ntxnReadyList=%s\nsequenceNumber=%d\ntxnActiveList=%s\ntimestamp=%s\n",
 			t.Format("Mon Jan 02 15:04:05 UTC 2006"), longList(120, variant), seq, longList(150, variant+1), stamp))
@@ -288,6 +334,9 @@ func searchCase(w *world, ds *replication.Datasource, d *dirSpec, t int64, min u
 	var st *replication.State
 	var err error
 	zone := withZone(func() { n, st, err = stateAt(ds, d.kind, epoch.Add(time.Duration(t))) })
+	if lastPanic != "" {
+		err = fmt.Errorf("panic: %s", lastPanic)
+	}
 	w.mu.Lock()
 	trace := append([]int64(nil), w.trace...)
 	paths := append([]string(nil), w.paths...)
@@ -322,7 +371,7 @@ func searchCase(w *world, ds *replication.Datasource, d *dirSpec, t int64, min u
 	}
 	c.Int(errclass).Int(seq).Int(ts).Ints(trace)
 	desc := map[string]interface{}{"kind": dirs[d.kind], "first_seq": d.base, "stamps_ns_since_2012-09-12": stamps,
-		"current_state_file": d.curOK, "largest_state_file_bytes": d.maxBody, "t": t, "process_time_zone": zone, "err": es, "seq": seq, "ts": ts, "requests": trace}
+		"current_state_file": d.curOK, "largest_state_file_bytes": d.maxBody, "server_gzips": w.gzip, "t": t, "process_time_zone": zone, "err": es, "seq": seq, "ts": ts, "requests": trace}
 	if len(paths) > 0 {
 		desc["first_request"] = paths[0]
 		desc["last_request"] = paths[len(paths)-1]
@@ -629,6 +678,9 @@ func decodeCase(w *world, ds *replication.Datasource, rng *rand.Rand, kind int) 
 			}
 		}
 	})
+	if lastPanic != "" {
+		err = fmt.Errorf("panic: %s", lastPanic)
+	}
 	c := &wire.Case{Class: "decode"}
 	c.Int(3).Int(int64(kind)).Bool(cur).Int(int64(n)).Int(int64(fileseq)).Int(ts)
 	seq, ots := int64(-1), int64(-1)
@@ -1015,11 +1067,116 @@ func decodeBCase(w *world, ds *replication.Datasource, rng *rand.Rand, d decB) *
 	return c
 }
 
+// ---------------------------------------------------------------- broken transfers
+//
+//	5 FAULT : kind mode(0 one state file fetched by name, 1 a lookup by time that probes it) n cut len
+//	        | outcome (0 a state came back, 1 error)
+//	The transfer of state file n breaks off after `cut` of its `len` bytes (the server announced
+//	len).  Whatever was received must not be read as a state.
+func faultCase(w *world, ds *replication.Datasource, rng *rand.Rand) *wire.Case {
+	kind := rng.Intn(3)
+	mode := rng.Intn(2)
+	var d *dirSpec
+	for {
+		d = genDir(rng, kind, false)
+		if len(d.ts) >= 4 {
+			break
+		}
+	}
+	d.install(w, 1000)
+	w.mu.Lock()
+	w.gzip = false
+	w.mu.Unlock()
+	var t int64
+	var n uint64
+	if mode == 1 {
+		// a file the lookup really asks for
+		t = queryTimes(rng, d, 1)[0]
+		w.rearm(1000)
+		stateAt(ds, kind, epoch.Add(time.Duration(t)))
+		w.mu.Lock()
+		var probed []uint64
+		for _, x := range w.trace {
+			if x > 0 && w.files[uint64(x)] != nil {
+				probed = append(probed, uint64(x))
+			}
+		}
+		w.mu.Unlock()
+		if len(probed) == 0 {
+			mode = 0
+		} else {
+			n = probed[rng.Intn(len(probed))]
+		}
+	}
+	if mode == 0 {
+		for i, p := range d.ts {
+			if p != nil && (n == 0 || rng.Intn(3) == 0) {
+				n = d.base + uint64(i)
+			}
+		}
+	}
+	body := w.files[n]
+	cut := rng.Intn(len(body))
+	switch rng.Intn(3) {
+	case 0: // right after the sequenceNumber line
+		if i := bytes.Index(body, []byte("sequenceNumber=")); i >= 0 {
+			if j := bytes.IndexByte(body[i:], '\n'); j >= 0 && i+j+1 < len(body) {
+				cut = i + j + 1
+			}
+		}
+	case 1: // just before the time stamp's value ends
+		if i := bytes.Index(body, []byte("timestamp=")); i > 0 {
+			cut = i + rng.Intn(12)
+		}
+	}
+	w.mu.Lock()
+	w.cut[n] = cut
+	w.mu.Unlock()
+	w.rearm(1000)
+	var err error
+	var st *replication.State
+	withZone(func() {
+		if mode == 1 {
+			_, st, err = stateAt(ds, kind, epoch.Add(time.Duration(t)))
+		} else {
+			ctx, cancel := context.WithTimeout(context.Background(), 10*time.Second)
+			defer cancel()
+			switch kind {
+			case 0:
+				st, err = ds.MinuteState(ctx, replication.MinuteSeqNum(n))
+			case 1:
+				st, err = ds.HourState(ctx, replication.HourSeqNum(n))
+			default:
+				st, err = ds.DayState(ctx, replication.DaySeqNum(n))
+			}
+		}
+	})
+	if lastPanic != "" {
+		err = fmt.Errorf("panic: %s", lastPanic)
+	}
+	outcome := int64(1)
+	es, got := "", ""
+	if err == nil {
+		outcome = 0
+		got = fmt.Sprintf("seq %d time %s", st.SeqNum, st.Timestamp.UTC().Format(time.RFC3339))
+	} else {
+		es = err.Error()
+	}
+	c := &wire.Case{Class: fmt.Sprintf("fault/mode%d", mode)}
+	c.Int(5).Int(int64(kind)).Int(int64(mode)).Int(int64(n)).Int(int64(cut)).Int(int64(len(body))).Int(outcome)
+	c.Desc = map[string]interface{}{"kind": dirs[kind], "mode": []string{"state file fetched by name", "lookup by time probing the file"}[mode], "file": n,
+		"transfer_cut_after_bytes": cut, "announced_bytes": len(body), "received": string(body[:cut]), "t": t, "err": es, "returned": got}
+	if outcome == 0 {
+		c.OracleFail = fmt.Sprintf("the transfer of state file %d broke off after %d of %d bytes and no error was reported (returned %s)", n, cut, len(body), got)
+	}
+	return c
+}
+
 func main() {
 	a := wire.ParseArgs()
 	rng := wire.Rng(a.Seed)
 	wr := wire.NewWriter("C19", a.Seed, a.Tier)
-	wr.Rule = "search: random directories (1..400 files, increasing stamps, gap patterns: none, prefix, isolated, runs next to lower/upper/split, whole interior, sparse, random density, equal stamps, shifted first file) x query times (before all, equal to a stamp, +-1ns, +1s, between, after all) for minute/hour/day/changesets through a local HTTP server with a request budget; path: state/data request paths for boundary sequence numbers; decode: state files fetched by name and as current. distinct = distinct token streams; single-file directories are trivial."
+	wr.Rule = "search: random directories (1..400 files, increasing stamps, gap patterns: none, prefix, isolated, runs next to lower/upper/split, whole interior, sparse, random density, equal stamps, shifted first file) x query times (before all, equal to a stamp, +-1ns, +1s, between, after all) for minute/hour/day/changesets through a local HTTP server with a request budget; path: state/data request paths for boundary sequence numbers; decode: state files fetched by name and as current; every other directory is served gzip-compressed to clients that accept it; state files of 2-90 KB (a line > 64 KiB before the time stamp); fault: transfers of a probed state file that break off (after the sequenceNumber line, inside the time stamp, anywhere) must be reported as errors. distinct = distinct token streams; single-file directories are trivial."
 	world := &world{}
 	srv := httptest.NewServer(world)
 	defer srv.Close()
@@ -1109,6 +1266,14 @@ func main() {
 		wr.Count(fmt.Sprintf("decodeb-outcome:%d", c.Toks[len(c.Toks)-11]>>1))
 	}
 
+	nfault := 60
+	if a.Tier == "thorough" {
+		nfault = 1500
+	}
+	var faultIdx []int
+	for i := 0; i < int(float64(nfault)*a.Scale); i++ {
+		faultIdx = append(faultIdx, wr.Add(faultCase(world, ds, rng)))
+	}
 	// canaries: one per observable class
 	plant := func(i int, f func(c *wire.Case)) {
 		c := wr.Cases[i].Clone()
